@@ -27,7 +27,7 @@ Require Import Hdl21.Base.PyInt Hdl21.Spec.PySlice Hdl21.Model.Slice Hdl21.Model
                Hdl21.Spec.Nets Hdl21.Spec.WfDesign Hdl21.Base.Package Hdl21.Base.PrimTable Hdl21.Spec.PkgWf Hdl21.Spec.C01ENets
                Hdl21.Model.C04ConnOps Hdl21.Spec.C04LastWrite Hdl21.Model.C04Groups
                Hdl21.Proofs.FunGraph Hdl21.Model.C01EElab Hdl21.Model.C01FElab Hdl21.Spec.C01FNets Hdl21.Proofs.C01FProofsEnd
-               Hdl21.Model.C04EBridge Hdl21.Model.C04EPipe Hdl21.Proofs.C04EProofs Hdl21.Proofs.C04EEnd.
+               Hdl21.Model.C04EBridge Hdl21.Model.C04EPipe Hdl21.Proofs.C04EProofs Hdl21.Proofs.C04EEnd Hdl21.Proofs.C04EShape.
 Open Scope Z_scope.
 
 (* 1. What the elaborator is handed after ANY history is the design of the FINAL mapping: state_design reads `conns`,
@@ -58,6 +58,23 @@ Theorem C04E_groups_agree u ops inmod fuel q r g k a b keys :
   (In (GRef r) g <-> gid (top_of u (fun x => final x ops)) keys a = gid (top_of u (fun x => final x ops)) keys b).
 Proof. exact (groups_agree u ops inmod fuel q r g k a b keys). Qed.
 Print Assumptions C04E_groups_agree.
+
+(* ... shape_ok is no extra assumption on a VALID final mapping: what the tables do not spell becomes the orphan leaf, which
+   Spec/WfDesign.v rejects (EOrphan), and a reference to a port of an InstanceArray is rejected as EBadKind *)
+Theorem C04E_valid_is_spelled u m : u_ok u = true -> wf_design (design_of u m) = Ok tt -> shape_ok u m = true.
+Proof. exact (wf_shape u m). Qed.
+Print Assumptions C04E_valid_is_spelled.
+
+Theorem C04E_groups_agree_valid u ops inmod fuel q r g k a b keys :
+  u_ok u = true -> closed_ok u (run ops) = true ->
+  (forall x, In x (u_insts u) -> inmod (ui_id x) = true) ->
+  wf_design (design_of u (fun x => final x ops)) = Ok tt ->
+  all_keys (design_of u (fun x => final x ops)) (top_of u (fun x => final x ops)) = Ok keys ->
+  follow (run ops) inmod fuel q [] = Some g ->
+  key_of u q k = Some a -> key_of u r k = Some b -> In a keys -> In b keys ->
+  (In (GRef r) g <-> gid (top_of u (fun x => final x ops)) keys a = gid (top_of u (fun x => final x ops)) keys b).
+Proof. exact (groups_agree_valid u ops inmod fuel q r g k a b keys). Qed.
+Print Assumptions C04E_groups_agree_valid.
 
 (* ... because the dictionary commutes with "the port my connection refers to" and is injective: the two functional
    graphs have the same weak components (any mapping, not only reachable ones) *)
